@@ -326,6 +326,25 @@ func c20DistinctRouteGroups(c *Ctx, r *Report, rule string) {
 					}
 				}
 			}
+			// ... or a comparison of two elements of the list with each other
+			if bo, ok := iff.Cond.(*ssa.BinOp); ok && (bo.Op == token.EQL || bo.Op == token.NEQ) && !viaSet {
+				elems := 0
+				for _, op := range []ssa.Value{bo.X, bo.Y} {
+					for d := range depSet(f, op) {
+						if ia, ok := d.(*ssa.IndexAddr); ok {
+							for d2 := range depSet(f, ia.X) {
+								if fa, ok := d2.(*ssa.FieldAddr); ok && fieldName(fa) == "ServiceNameList" {
+									elems++
+								}
+							}
+							break
+						}
+					}
+				}
+				if elems >= 2 {
+					viaSet = true
+				}
+			}
 			if !viaSet {
 				continue
 			}
